@@ -51,6 +51,10 @@ FR_KIND = ['code', 'squote', 'dquote', 'comment', 'embed-spaced', 'embed-md', 'd
            'lone-dquote']
 
 
+PRAGMA_SPELLINGS = ['#$ data_values_nest_level=%d\n', '#$ data_values_nest_level =%d\n', '#$ data_values_nest_level= %d\n',
+                    '#$   data_values_nest_level  =  %d  \n', '#$ data_values_nest_level\t=\t%d\n', '#$ data_values_nest_level = %d\r\n']
+
+
 def anchors():
     from pybufrkit import script
     return [script.process_embedded_query_expr, script.ScriptRunner.__init__, script.ScriptRunner.prepare_variables,
@@ -198,8 +202,10 @@ def run_checks(ctx, msg, exprs_pool, origin):
         body = '\n'.join(lines) + '\n'
         md_only = all(e.startswith('%') for e in chosen)
         results = {}
+        spell = PRAGMA_SPELLINGS[(ctx.counters['runs'] // 11) % len(PRAGMA_SPELLINGS)]
         for level, how in ((1, 'default'), (0, 'arg'), (1, 'arg'), (2, 'arg'), (4, 'arg'), (2, 'pragma'), (4, 'pragma'), (0, 'pragma'),
-                           (2, 'pragma-second-line'), (0, 'pragma-second-line'), (4, 'pragma-after-comma')):
+                           (2, 'pragma-second-line'), (0, 'pragma-second-line'), (4, 'pragma-after-comma'),
+                           (2, 'pragma-other-spacing'), (0, 'pragma-other-spacing'), (4, 'pragma-other-spacing')):
             script = body
             kw = {}
             if how == 'arg':
@@ -211,6 +217,9 @@ def run_checks(ctx, msg, exprs_pool, origin):
                 script = '#$ some_other_directive = 1\n#$ data_values_nest_level = %d\n' % level + body
             elif how == 'pragma-after-comma':
                 script = '#$ some_other_directive = 1, data_values_nest_level = %d\n' % level + body
+            elif how == 'pragma-other-spacing':
+                # the same assignment written with other blanks around `=` and after `#$`
+                script = spell % level + body
             ctx.count('runs')
             ctx.evaluated((script, level, how, id(msg) % 1000, origin), True)
             try:
@@ -286,7 +295,7 @@ def run_checks(ctx, msg, exprs_pool, origin):
                                 dict(expr=e, origin=origin))
         # pragma gives the same as the argument; argument beats pragma
         for level in (0, 2, 4):
-            for how in ('pragma', 'pragma-second-line', 'pragma-after-comma'):
+            for how in ('pragma', 'pragma-second-line', 'pragma-after-comma', 'pragma-other-spacing'):
                 if (level, how) in results and (level, 'arg') in results:
                     ctx.count('pragma_vs_argument_checks')
                     if results[(level, how)] != results[(level, 'arg')]:
